@@ -205,7 +205,7 @@ func IsMatchingCodeIDWithCallee(codeIDOracle func(config.CodeIdentifier) bool, c
 			cid := config.CodeIdentifier{
 				Context:    node.Parent().String(),
 				Package:    pkgName,
-				Method:     funcName,
+				Method:     callee.Name(), // the called value may be a register: the name is the callee's
 				Receiver:   receiverType,
 				ValueMatch: n.String(),
 			}
